@@ -4,11 +4,13 @@
    SOME schedule (any interleaving of the threads' atomic sections); all theorems quantify over
    all ops and all reachable c.  [fixed] = model of answer.go as it is now (F11 fixed; resolve:
    result known -> proxies fulfilled -> signals closed), [as_found] / [f11_fixed] / [late_fixed] =
-   earlier versions of the code (kept for the refuted statements).  Single promise: Join is not
-   in this model. *)
+   earlier versions of the code (kept for the refuted statements).  The first part is about the
+   single-promise model Promise.v; the theorems named C11_join_* are about the model with Join and
+   joined chains, PromiseJoin.v ([jreach v np ops c]: np promises, variant switches v; premises listed
+   before C11_join_fulfil_never_waits_for_hook). *)
 From CV Require Import Promise.Promise Promise.PromiseProofs Promise.PromiseStepProofs Promise.MuProofs
   Promise.PromiseTheorems Promise.PromiseLive Promise.PromiseProxies Promise.PromiseJoin Promise.PromiseJoinProofs Promise.PromiseJoinThms Promise.PromiseJoinInv Promise.PromiseJoinRefs Promise.PromiseJoinForest Promise.PromiseJoinDest Promise.PromiseJoinChain Promise.PromiseJoinLive Promise.PromiseJoinStuck Promise.PromiseJoinZero Promise.PromiseJoinHook Promise.PromiseJoinPath
-  Promise.PromiseJoinHookStuck Promise.PromiseJoinLands Promise.PromiseJoinRel Promise.PromiseJoinIdem.
+  Promise.PromiseJoinHookStuck Promise.PromiseJoinLands Promise.PromiseJoinRel Promise.PromiseJoinIdem Promise.PromiseJoinWaits Promise.PromiseJoinRecv.
 Open Scope Z_scope.
 
 (* the promise resolves at most once; Fulfill/Reject after the first one panics (OPanic), the
@@ -162,14 +164,18 @@ Theorem C11_join_nil_table_refuted :
 Proof. exact join_nil_table_refuted. Qed.
 Print Assumptions C11_join_nil_table_refuted.
 
-(* pipelined_exactly_once on a promise and its joined chain (model with Join), all variants, any number of promises,
-   every op list and interleaving:
+(* pipelined_exactly_once on a promise and its joined chain (model with Join), any number of promises, every op list
+   and interleaving (premise: Join allocates the client table, the code as it is):
    (count) a call is delivered at most once, and exactly once when it has returned (a Client-call on an empty slot: zero);
-   (caller) a call is handed to the PipelineCaller of the promise at the end of its traversal only while that promise
-            has not left the unresolved state;
-   (destination) every other delivery was made on the result of the promise at the end of the call's traversal, at
-            the call's path, and that result is final. *)
-Theorem C11_join_pipelined_exactly_once : forall v np ops c, jreach v np ops c ->
+   (caller) a call is handed to the PipelineCaller of a promise only while that promise has not left the unresolved
+            state;
+   (destination) the promise k a call was delivered at is reached along next from the call's RECEIVER (the promise of
+            PipelineSend/Recv; for a call through a proxy client, the proxy's owner); a delivery that is not to k's
+            PipelineCaller was made when k is the END of that chain (no next edge, for good), on k's result at the
+            call's path, and that result is final.
+   Calls through an already resolved / released client (JEDirect) are only counted here; what such a client refers to
+   is C11_join_proxy_clients_resolved_and_released. *)
+Theorem C11_join_pipelined_exactly_once : forall v np ops c, jv_alloc_table v = true -> jreach v np ops c ->
   (forall t th, nth_error (jthreads c) t = Some th ->
     match j_op th with
     | JSend _ _ _ =>
@@ -183,13 +189,15 @@ Theorem C11_join_pipelined_exactly_once : forall v np ops c, jreach v np ops c -
     end) /\
   wf_jcaller (jevents c) /\
   (forall t th k d, nth_error (jthreads c) t = Some th -> In (JEDeliver t k d) (jevents c) ->
-    d = DCaller \/
-    (d = res_dest (jcur_res (getp c k)) (j_path th) /\ p_caller (getp c k) = false /\
-     (p_result (getp c k) <> None \/ p_signals (getp c k) = []))).
-Proof.
-  intros v np ops c H. split; [exact (join_pipelined_exactly_once v np ops c H)|].
-  split; [exact (join_caller_before_resolution v np ops c H)|exact (join_delivery_destination v np ops c H)].
-Qed.
+    match j_op th with
+    | JSend k0 _ _ => nreach c k0 k
+    | JCall _ _ => exists x, j_via th = Some x /\ nreach c (jx_owner (getx c x)) k
+    | _ => True
+    end /\
+    (d = DCaller \/
+     (p_next (getp c k) = None /\ d = res_dest (jcur_res (getp c k)) (j_path th) /\ p_caller (getp c k) = false /\
+      (p_result (getp c k) <> None \/ p_signals (getp c k) = [])))).
+Proof. exact join_pipelined_exactly_once_full. Qed.
 Print Assumptions C11_join_pipelined_exactly_once.
 
 (* ---- joined chains (model PromiseJoin.v): all variants / all numbers of promises / all op lists / all
@@ -325,30 +333,46 @@ Theorem C11_join_resclosed_lands : forall v np ops c,
 Proof. exact join_resclosed_lands. Qed.
 Print Assumptions C11_join_resclosed_lands.
 
-(* no_stuck on chains, same shape as C11_no_stuck: if no thread can take a step then the application holds a call
-   inside a PipelineCaller (gated, not released), or every unfinished operation waits - on its own promise's resolved /
-   joined channel, or through Join threads - for a promise that nobody has asked to resolve *)
+(* no_stuck on chains, in the shape of C11_no_stuck.  If no thread can take a step then the application holds a call
+   inside a PipelineCaller (gated, not released), or every unfinished operation t is blocked on a channel of a promise
+   k = [waited th] (resolved_k for Struct / ReleaseClients at their start, Client() and a Join that found k pending
+   resolution; joined_k for a traversal or a Join that found k pending join) and k depends on a promise r that nobody
+   has asked to resolve ([waits_on c k r]: r is k, or k was joined onto a promise that depends on r, or a Join of k is
+   in progress onto a promise that depends on r; p_caller r still set). *)
 Theorem C11_join_no_stuck : forall v np ops c,
   jv_close_joined v = true -> jv_alloc_table v = true -> join_ordered ops -> jreach v np ops c ->
   (forall t, jenabled v c t = false) ->
   (exists t th, nth_error (jthreads c) t = Some th /\ j_pc th = QInCaller /\
                 jop_gated (j_op th) = true /\ mem_nat t (jgates c) = false) \/
   (forall t th, nth_error (jthreads c) t = Some th -> j_pc th <> QDone ->
-                exists r, p_caller (getp c r) = true).
-Proof. exact join_no_stuck. Qed.
+     exists k r, waited th = Some k /\ waits_on c k r /\ p_caller (getp c r) = true).
+Proof. exact join_no_stuck_tied. Qed.
 Print Assumptions C11_join_no_stuck.
 
-(* waiters_released on chains: at rest, no call held by the application, every promise asked to resolve or joined =>
-   every operation (Done/Struct waiters, ReleaseClients, Client(), pipelined calls, Joins) has finished *)
+(* waiters_released on chains, per chain: at rest, with no call held by the application, an operation has finished
+   unless the promise it is blocked on depends on a promise that nobody asked to resolve - other, unrelated promises
+   may be in any state *)
 Theorem C11_join_waiters_released : forall v np ops c,
   jv_close_joined v = true -> jv_alloc_table v = true -> join_ordered ops -> jreach v np ops c ->
   (forall t, jenabled v c t = false) ->
   (forall t th, nth_error (jthreads c) t = Some th -> j_pc th = QInCaller ->
                 jop_gated (j_op th) = true -> mem_nat t (jgates c) = true) ->
-  (forall k, p_caller (getp c k) = false) ->
-  forall t th, nth_error (jthreads c) t = Some th -> j_pc th = QDone.
-Proof. exact join_waiters_released. Qed.
+  forall t th, nth_error (jthreads c) t = Some th ->
+    (forall k r, waited th = Some k -> waits_on c k r -> p_caller (getp c r) = false) ->
+    j_pc th = QDone.
+Proof. exact join_waiters_released_tied. Qed.
 Print Assumptions C11_join_waiters_released.
+
+(* waiters_enabled on chains (analogue of C11_waiters_enabled): once resolved_k is closed, an unfinished Struct /
+   ReleaseClients on k can take a step, unless the mutex of the promise it is at is held - and then some thread can
+   (C11_join_no_mutex_deadlock) *)
+Theorem C11_join_waiters_enabled : forall v np ops c,
+  jv_alloc_table v = true -> jreach v np ops c ->
+  forall t th k, nth_error (jthreads c) t = Some th -> j_op th = JWait k \/ j_op th = JRelease k ->
+    j_pc th <> QDone -> p_resclosed (getp c k) = true ->
+    jenabled v c t = true \/ p_mu (getp c (j_cur th)) <> None.
+Proof. exact join_waiters_enabled. Qed.
+Print Assumptions C11_join_waiters_enabled.
 
 (* proxy targets on chains: every proxy in the client table of a settled (resolved) promise r - its own pipelined
    clients and those moved to it by Joins - has been given r's result at the proxy's path.  With
@@ -417,9 +441,6 @@ Theorem C11_join_zero_joins_inert_partial : forall v np ops c, Forall no_join_op
   (forall k, p_next (getp c k) = None /\ p_joined (getp c k) = CNil /\ p_mu (getp c k) = None) /\
   (forall t th, nth_error (jthreads c) t = Some th -> jjoin_pc (j_pc th) = false) /\
   join_ordered ops.
-Proof.
-  intros v np ops c Hn Hr. destruct (join_zero_joins_inert v np ops c Hn Hr) as [A B].
-  split; [exact A|]. split; [exact B|exact (no_join_ordered ops Hn)].
-Qed.
+Proof. exact join_zero_joins_inert_ordered. Qed.
 Print Assumptions C11_join_zero_joins_inert_partial.
 
